@@ -20,6 +20,7 @@ import csv
 import datetime
 import io
 import os
+import re
 import sys
 import zipfile
 from contextlib import closing
@@ -70,6 +71,8 @@ _TEXT_PREFIX = "{" + _OOO_NAMESPACES["text"] + "}"
 _TABLE_PREFIX = "{" + _OOO_NAMESPACES["table"] + "}"
 #: Maximum value accepted for repeat counts in ODS documents (spreadsheets have at most 2**20 rows and 2**14 columns).
 _MAX_ODS_REPEAT_COUNT = 2 ** 20
+#: Lexical form of integers in XML attributes; unlike ``int()`` without "_" and digits of other scripts.
+_ODS_COUNT_REGEX = re.compile(r"^[ \t\r\n]*[+-]?[0-9]+[ \t\r\n]*$")
 #: Elements of a table that can contain rows in addition to the table itself.
 _TABLE_ROW_CONTAINER_TAGS = (
     _TABLE_PREFIX + "table-header-rows",
@@ -235,6 +238,30 @@ def _findall(element, xpath, namespaces):
     return result
 
 
+def _ods_count(name, count_text, minimum, location):
+    """
+    The value of the XML attribute ``name`` holding ``count_text``, which has to
+    be an integer as defined by XML schema (optional sign, ASCII digits,
+    possibly surrounded by white space) between ``minimum`` and
+    `_MAX_ODS_REPEAT_COUNT`.
+    """
+    try:
+        if _ODS_COUNT_REGEX.match(count_text) is None:
+            raise ValueError("count must match regular expression")
+        result = int(count_text)
+    except ValueError:
+        raise errors.DataFormatError("%s is %s but must be an integer" % (name, _compat.text_repr(count_text)), location)
+    if result < minimum:
+        raise errors.DataFormatError(
+            "%s is %s but must be at least %d" % (name, _compat.text_repr(count_text), minimum), location
+        )
+    if result > _MAX_ODS_REPEAT_COUNT:
+        raise errors.DataFormatError(
+            "%s is %s but must be at most %d" % (name, _compat.text_repr(count_text), _MAX_ODS_REPEAT_COUNT), location
+        )
+    return result
+
+
 def _ods_text(element, location):
     """
     The text of a ``text:p`` element (or an element nested in it, for example
@@ -245,15 +272,7 @@ def _ods_text(element, location):
     for child in element:
         if child.tag == _TEXT_PREFIX + "s":
             count_text = child.attrib.get(_TEXT_PREFIX + "c", "1")
-            try:
-                count = int(count_text)
-            except ValueError:
-                raise errors.DataFormatError("text:c is %s but must be an integer" % _compat.text_repr(count_text), location)
-            if count > _MAX_ODS_REPEAT_COUNT:
-                raise errors.DataFormatError(
-                    "text:c is %s but must be at most %d" % (_compat.text_repr(count_text), _MAX_ODS_REPEAT_COUNT), location
-                )
-            result += " " * count
+            result += " " * _ods_count("text:c", count_text, 0, location)
         elif child.tag == _TEXT_PREFIX + "tab":
             result += "\t"
         elif child.tag == _TEXT_PREFIX + "line-break":
@@ -332,24 +351,7 @@ def ods_rows(source_ods_path, sheet=1):
             if table_cell.tag not in (_TABLE_PREFIX + "table-cell", _TABLE_PREFIX + "covered-table-cell"):
                 continue
             repeated_text = table_cell.attrib.get(_NUMBER_COLUMNS_REPEATED, "1")
-            try:
-                repeated_count = int(repeated_text)
-                if repeated_count < 1:
-                    raise errors.DataFormatError(
-                        "table:number-columns-repeated is %s but must be at least 1" % _compat.text_repr(repeated_text),
-                        location,
-                    )
-                if repeated_count > _MAX_ODS_REPEAT_COUNT:
-                    raise errors.DataFormatError(
-                        "table:number-columns-repeated is %s but must be at most %d"
-                        % (_compat.text_repr(repeated_text), _MAX_ODS_REPEAT_COUNT),
-                        location,
-                    )
-            except ValueError:
-                raise errors.DataFormatError(
-                    "table:number-columns-repeated is %s but must be an integer" % _compat.text_repr(repeated_text),
-                    location,
-                )
+            repeated_count = _ods_count("table:number-columns-repeated", repeated_text, 1, location)
             text_ps = _findall(table_cell, "text:p", namespaces=_OOO_NAMESPACES)
             try:
                 cell_value = "\n".join(_ods_text(text_p, location) for text_p in text_ps)
